@@ -107,8 +107,17 @@ pub fn transaction_family() -> Fam {
     let key = rec::tx_key(&pool[0]);
     let mut items = vec![];
     // every non-empty subset of size <= 2 as a replicated vector; singles also as paid uploads
+    // (pairs in both orders: which entry comes first in the vector must not matter)
+    let mut orders: Vec<Vec<usize>> = vec![];
     for mask in mc_core::enumerate::subsets(5, 1, 2) {
         let idx: Vec<usize> = (0..5).filter(|i| mask & (1 << i) != 0).collect();
+        if idx.len() == 2 {
+            orders.push(vec![idx[1], idx[0]]);
+        }
+        orders.push(idx);
+    }
+    orders.sort_by_key(|o| (o.len(), o.clone()));
+    for idx in orders {
         let ts: Vec<Transaction> = idx.iter().map(|i| pool[*i].clone()).collect();
         let valid: BTreeSet<usize> = idx.iter().cloned().filter(|i| *i < 3).collect();
         let single = if ts.len() == 1 { Some(ts[0].clone()) } else { None };
@@ -524,7 +533,7 @@ pub fn main(tier: Option<&str>) {
     let run = Run::new("C07", "model_checking", tier);
     run.rule(
         "(seq) BFS, replay mode: deliveries of every item of a family (scratchpads: counters 1..3 x {owner-signed, other key, unsigned, foreign \
-         owner under this key}; transactions: every subset <=2 of a 5-entry pool incl. badly signed and foreign; registers: all 8 op subsets + forged \
+         owner under this key}; transactions: every vector of <=2 distinct entries (both orders) of a 5-entry pool incl. badly signed and foreign; registers: all 8 op subsets + forged \
          base) via {replication, unpaid update, paid upload} to one real Node, each run to quiescence; state = (held value, reference). \
          (conc) every ordered pair of authentic single deliveries to one key, with and without prior content, both futures live: \
          stateless DFS over all interleavings of future polls / command handling / write and notification tasks with <=1(2) deviations from FIFO.",
